@@ -27,6 +27,12 @@ add('C20',
     'Trusts str(bool) / str(Enum member) spelling of CPython and that ag__ attribute lookup follows get_extra_locals; nothing is executed.',
     'DESIGN.md section 4, C20')
 
+add('C04',
+    'ASDL-closure traversal analysis: for each responsible pass and construct kind, a syntax-directed must-traverse analysis of every visit_<Kind> handler (helpers inlined through the MRO) against can_derive(field type, kind) computed from the interpreter grammar; exit classification (generated vs pass-through) with documented-guard table; operator table check; computed pass-order constraints; zero-count SKIP_PROCESSING rule with positive-control fixture',
+    'For every node kind of the CPython 3.12 grammar in scope and every field that can (transitively) contain an if/while/for/break/continue/return/call/boolean/conditional expression, decides that the responsible converter dispatches that field on every normal path of its handler (absence of an override = generic_visit), that the construct handlers recurse and return generated code except under the documented exceptions, that the operator tables map And/Or/Not/Eq/NotEq to the right overloads, that nobody sets SKIP_PROCESSING and that constructs emitted by earlier passes are still routed (order constraints derived from templates). Covers every syntactic context because contexts are exactly the fields of the grammar.',
+    'Trusts ast.NodeTransformer dispatch and the ASDL docstrings of the running interpreter; comprehension clauses, with-items, parameter annotations and type parameters are the documented/out-of-class exceptions (one table line each). Does not count operators dynamically.',
+    'DESIGN.md section 4, C04')
+
 NOT_APPLICABLE = {
     'C12': 'quantifies over run-time tracebacks, generated line layout and source-map contents, which exist only after the pipeline has run on a program; the only shape-level clause (exception re-creation table) is too small a part to claim the property through (DESIGN.md section 5)',
 }
